@@ -215,7 +215,7 @@ func c15simple(r *kernel.Run, strategy, nprod, nitems int, withCancel, withPop b
 		r.Fault("cancellation")
 	}
 	cancel()
-	s.Finish()
+	s.Abort()
 	if r.Failed() {
 		return
 	}
@@ -292,7 +292,7 @@ func c15priority(r *kernel.Run, strategy int) {
 	for _, t := range st.RealBlocked {
 		r.Violate("stuck", "task-stuck", "task %s is blocked in %s", t.Label, t.BlockedIn())
 	}
-	s.Finish()
+	s.Abort()
 	if r.Failed() {
 		return
 	}
